@@ -563,7 +563,16 @@ class Analysis:
                     written.add(core.strip_casts(n["x"])["n"])
                 if n.get("k") == "un" and n["op"] in ("post++", "post--", "pre++", "pre--") and core.strip_casts(n["e"]).get("k") == "ref":
                     written.add(core.strip_casts(n["e"])["n"])
+        local_names = set()
+        for _p, _r, n_, _ps in fn.nodes():
+            if n_.get("k") == "decl":
+                local_names |= {v["n"] for v in n_.get("vars", [])}
         for (pn, sn, unit_size) in pairs:
+            if pn in names and (not isinstance(sn, int)) and sn not in names and sn in local_names:
+                # a tabled pair whose size is a local of the function (the validated length field of the object the pointer
+                # addresses, read once into a local): the local itself is the size symbol
+                self.buffers.append((pn, atom(sn).scale(unit_size if unit_size else 1), "%s[%s]" % (pn, sn)))
+                continue
             if pn in names and (sn in names or isinstance(sn, int)):
                 es = unit_size if unit_size else 1
                 base, sz = pn, sn
@@ -1061,7 +1070,13 @@ class Analysis:
                 self._access(st, pos, e, b.add(i.scale(w)), w, "r", record)
             return self.lin(e, st)
         if k == "mem":
-            self._ev(st, pos, e["b"], record)
+            b = self._ev(st, pos, e["b"], record)
+            # p->field: a read of the field's bytes at p + offsetof(field) (bit-fields: the byte(s) they live in)
+            if e.get("arrow") and b is not None and "off" in e and self._tinfo(e["t"])["k"] != "arr":
+                w = self._tinfo(e["t"]).get("size") or 1
+                if "bits" in e:
+                    w = (e["off"] % 8 + e["bits"] + 7) // 8
+                self._access(st, pos, e, b.plus(e["off"] // 8), w, "r", record)
             return self.lin(e, st)
         if k == "bin":
             op = e["op"]
